@@ -65,6 +65,9 @@ def _match(p, n, b: Dict[str, str]) -> bool:
         return isinstance(n, ast.Name) and n.id == p.id
     if isinstance(p, ast.Expr) and isinstance(n, ast.Expr):
         return _match(p.value, n.value, b)
+    if isinstance(p, ast.Assign) and len(p.targets) == 1 and isinstance(n, ast.AnnAssign) and n.value is not None:
+        # `x: T = v` is matched by the pattern `x = v`
+        return _match(p.targets[0], n.target, b) and _match(p.value, n.value, b)
     if type(p) is not type(n):
         return False
     if isinstance(p, ast.Constant):
